@@ -247,3 +247,20 @@ Theorem C07_code_communication_control_request : forall cfg ct v node, std cfg =
   fn_communication_control_request ct v node = (cty <- ct_normalize (CtInt v) ;; payload_of (cc_make cfg ct cty node)).
 Proof. exact tie_communication_control_request. Qed.
 Print Assumptions C07_code_communication_control_request.
+
+(* ---- the code is the model: io_control on a configured entry with masks (tools/symtrans.py, Gen/Fn_Io.v) ---- *)
+From UDS Require Import Gen.Fn_Io Model.Svc_Did Proofs.Tie_io.
+Theorem C07_code_io_request_nomask : forall cfg cp v, ios cfg = io_table -> fn_io_request_nomask cp v = payload_of (io_make cfg 306 cp v MNone).
+Proof. exact tie_io_request_nomask. Qed.
+Print Assumptions C07_code_io_request_nomask.
+Theorem C07_code_io_request_bool : forall cfg cp v b, ios cfg = io_table -> fn_io_request_bool cp v b = payload_of (io_make cfg 306 cp v (MBool b)).
+Proof. exact tie_io_request_bool. Qed.
+Print Assumptions C07_code_io_request_bool.
+Theorem C07_code_io_request_dict : forall cfg cp v b0 b1 b2, ios cfg = io_table ->
+  fn_io_request_dict cp v b0 b1 b2 = payload_of (io_make cfg 306 cp v (MList [(0, b0); (1, b1); (2, b2)])).
+Proof. exact tie_io_request_dict. Qed.
+Print Assumptions C07_code_io_request_dict.
+Theorem C07_code_io_request_undefined_name : forall cfg cp v b0 bx, ios cfg = io_table ->
+  fn_io_request_undefined_name cp v b0 bx = payload_of (io_make cfg 306 cp v (MList [(0, b0); (3, bx)])).
+Proof. exact tie_io_request_undefined_name. Qed.
+Print Assumptions C07_code_io_request_undefined_name.
